@@ -212,9 +212,13 @@ X_FinT(o) ==
 (* ----- upgrade ------------------------------------------------------------------ *)
 
 UOwnDone(o) ==
-  LET cur == [r \in (DOMAIN o.curman) \cup o.adopted |->
-                IF r \in o.adopted THEN o.tgtman[r] ELSE o.curman[r]]
-      o1 == [o EXCEPT !.curman = cur] IN
+  \* toBeUpdated is appended to `current`; ResourceList.Get returns the FIRST match and matches on
+  \* kind/name only, so an object that is already in the current manifest (apiVersion bump) keeps its
+  \* old entry as "original"; only objects new to the release are their own original
+  LET fresh == o.adopted \ DOMAIN o.curman
+      cur == [r \in (DOMAIN o.curman) \cup o.adopted |->
+                IF r \in fresh THEN o.tgtman[r] ELSE o.curman[r]]
+      o1 == [o EXCEPT !.curman = cur, !.adopted = fresh] IN
   IF o.u.dry THEN Done(o1, "ok") ELSE PStart(o1, "upgrade")
 
 UOwnNext(o) ==
@@ -224,7 +228,7 @@ UOwnNext(o) ==
 UPrepared(o, orig) ==
   LET tgt == ChartMan(o.u.chart)
       cur == store[orig].man
-      tbc == SelectSeq(ManOrder(tgt), LAMBDA r : r \notin DOMAIN cur)
+      tbc == SelectSeq(ManOrder(tgt), LAMBDA r : r \notin DOMAIN cur \/ ~SameKey(cur[r], tgt[r]))
       o1 == [o EXCEPT !.orig = orig, !.origSt = store[orig].st, !.new = Last + 1,
                       !.tgtman = tgt, !.curman = cur, !.tseq = tbc, !.adopted = {}] IN
   IF Last = MaxRev THEN Done(o, "err")
@@ -880,10 +884,12 @@ SetField(obj, f, v) == IF f = "f1" THEN [obj EXCEPT !.f1 = v] ELSE [obj EXCEPT !
 
 EditWith(e) ==
   /\ Idle /\ nedits < MaxEdits
-  /\ Present(e.res)
+  /\ (e.kind = "oobnew") # Present(e.res)          \* somebody else creates an object only where none exists
   /\ cluster' = CASE e.kind = "edit"    -> [cluster EXCEPT ![e.res] = SetField(@, e.field, e.value)]
                   [] e.kind = "oobdel"  -> [cluster EXCEPT ![e.res] = Absent]
                   [] e.kind = "oobkeep" -> [cluster EXCEPT ![e.res].pol = "keep"]
+                  [] e.kind = "oobunkeep" -> [cluster EXCEPT ![e.res].pol = "none"]
+                  [] e.kind = "oobnew"  -> [cluster EXCEPT ![e.res] = [f1 |-> "q", f2 |-> "-", own |-> e.value, pol |-> "none"]]
   /\ last' = Lab(0, "edit", e.kind, IF e.kind = "edit" THEN e.field \o "=" \o e.value ELSE "", e.res, TRUE, FALSE)
   /\ hist' = Append(hist, [step |-> "edit", e |-> e])
   /\ nedits' = nedits + 1
